@@ -362,7 +362,10 @@ impl G1Affine {
         let mut raw = blst_p1_affine::default();
         let success =
             unsafe { blst_p1_deserialize(&mut raw, bytes.as_ptr()) == BLST_ERROR::BLST_SUCCESS };
-        CtOption::new(G1Affine(raw), Choice::from(success as u8))
+        // `blst_p1_deserialize` also accepts compressed encodings (ignoring the
+        // second half of the input), which are not valid uncompressed encodings.
+        let is_uncompressed = bytes[0] & 0x80 == 0;
+        CtOption::new(G1Affine(raw), Choice::from((success & is_uncompressed) as u8))
     }
 
     /// Attempts to deserialize a compressed element.
